@@ -24,7 +24,8 @@ use crate::data_type::{DataType, Int96};
 use crate::errors::Result;
 use crate::schema::types::ColumnDescPtr;
 use arrow_array::{
-    Array, ArrayRef, BooleanArray, Date64Array, Decimal64Array, Decimal128Array, Decimal256Array,
+    Array, ArrayRef, BooleanArray, Date64Array, Decimal32Array, Decimal64Array, Decimal128Array,
+    Decimal256Array,
     Float32Array, Float64Array, Int8Array, Int16Array, Int32Array, Int64Array, PrimitiveArray,
     UInt8Array, UInt16Array, builder::PrimitiveDictionaryBuilder, cast::AsArray, downcast_integer,
     types::*,
@@ -398,6 +399,13 @@ fn coerce_i64(array: &Int64Array, target_type: &ArrowType) -> Result<ArrayRef> {
                 Arc::new(array) as _
             }
         },
+        // a decimal of precision 1 is stored as INT64 (see the schema conversion)
+        ArrowType::Decimal32(p, s) => {
+            let array: Decimal32Array = array
+                .unary(|i| i as i32)
+                .with_precision_and_scale(*p, *s)?;
+            Arc::new(array) as _
+        }
         ArrowType::Decimal64(p, s) => {
             let array = array
                 .reinterpret_cast::<Decimal64Type>()
